@@ -1,6 +1,7 @@
 package main
 
 import (
+	"hash/fnv"
 	"crypto/rand"
 	"fmt"
 	"math"
@@ -110,6 +111,13 @@ func (discardLogger) Panicf(format string, v ...any)   { panic(fmt.Sprintf(forma
 func (n *Node) call(kind, args string, f func() string) (out string, panicked bool) {
 	drawN = uint64(n.cfg.ET)
 	drawsUsed = drawsUsed[:0]
+	// C18: RawNode only reads its Storage; a call that is not a storage write must leave the
+	// contents of MemoryStorage exactly as they were (a read must not write through a shared array)
+	var sigBefore uint64
+	checkSt := n.st != nil && !isStorageKind(kind) && kind != "new" && kind != "stop"
+	if checkSt {
+		sigBefore = storageSig(n.st)
+	}
 	func() {
 		defer func() {
 			if r := recover(); r != nil {
@@ -142,7 +150,43 @@ func (n *Node) call(kind, args string, f func() string) (out string, panicked bo
 	if panicked {
 		n.cl.onPanic(n, kind, out)
 	}
+	if checkSt && !panicked && storageSig(n.st) != sigBefore {
+		n.cl.mon.report("C18", "", "node %d: the call %q changed the contents of MemoryStorage (a read wrote through an array shared with the storage)", n.id, kind)
+	}
 	return out, panicked
+}
+
+// storageSig: a hash of everything MemoryStorage answers (hard state, snapshot position, entries)
+func storageSig(st *raft.MemoryStorage) uint64 {
+	h := fnv.New64a()
+	w := func(x uint64) {
+		var b [8]byte
+		for i := 0; i < 8; i++ {
+			b[i] = byte(x >> (8 * i))
+		}
+		h.Write(b[:])
+	}
+	hs, _, _ := st.InitialState()
+	w(hs.GetTerm())
+	w(hs.GetVote())
+	w(hs.GetCommit())
+	fi, _ := st.FirstIndex()
+	li, _ := st.LastIndex()
+	dt, _ := st.Term(fi - 1)
+	w(fi)
+	w(li)
+	w(dt)
+	if li >= fi {
+		ents, _ := st.Entries(fi, li+1, math.MaxUint64)
+		for _, e := range ents {
+			w(e.GetIndex())
+			w(e.GetTerm())
+			w(uint64(e.GetType()))
+			h.Write(e.GetData())
+			w(uint64(len(e.GetData())))
+		}
+	}
+	return h.Sum64()
 }
 
 func isStorageKind(k string) bool {
